@@ -140,12 +140,77 @@ func c12Step(x *engine.Exec) []engine.Failure {
 			x.Cnt.Inc("event.value_change_with_rewards_outstanding")
 		}
 	}
+	// every payment must be backed by an advanced reward history and bounded by index x tokens
+	pay := paymentOracle(x, ref)
 	// the entitlement oracle is C13's: here the reward reference is only kept up to date
 	rewardStepDenoms(x, ref)
 	if len(ref.E) == 0 && next.Pool.IsZero() {
 		ref.Tainted = false
 	}
-	return solvencyCheck(x, ref)
+	return append(pay, solvencyCheck(x, ref)...)
+}
+
+// paymentOracle: whatever a transition pays a delegator in the bond denom must come with an advanced reward history of
+// one of his positions (or the position's removal). A payment that leaves every history where it was can be collected
+// again; this check is independent of the known design-level inflation of amounts (payout on CURRENT tokens, rounded
+// up), which otherwise hides a double payment after a slash.
+func paymentOracle(x *engine.Exec, ref *rewRef) []engine.Failure {
+	prev, next := x.Prev.Snap(), x.Next.Snap()
+	var out []engine.Failure
+	if x.Op.K == world.KReward {
+		return nil
+	}
+	// largest factor by which this transition can have raised a position's token value before paying it
+	G := ratI(1)
+	if x.Op.K == world.KSlash {
+		for _, g := range slashFactors(prev, x.Op.V, world.Rat(x.Res.EffFrac)) {
+			if g != nil && g.Cmp(G) > 0 {
+				G = g
+			}
+		}
+	}
+	nm := next.PosMap()
+	for d := range next.DelBal {
+		paid := new(big.Int).Sub(next.DelBal[d].AmountOf(rewardDenom).BigInt(), prev.DelBal[d].AmountOf(rewardDenom).BigInt())
+		if paid.Sign() <= 0 {
+			continue
+		}
+		bound := new(big.Rat)
+		advanced := 0
+		for _, p := range prev.Pos {
+			if p.D != d {
+				continue
+			}
+			np, ok := nm[p.Key()]
+			adv := !ok || fmt.Sprint(np.Raw.RewardHistory) != fmt.Sprint(p.Raw.RewardHistory)
+			if !adv {
+				continue
+			}
+			advanced++
+			if ix := ref.Idx[p.Key()]; ix != nil && ix[rewardDenom] != nil {
+				tokens := ratAdd(world.RatInt(p.Reported), ratI(1))
+				if ok && world.RatInt(np.Reported).Cmp(tokens) > 0 {
+					tokens = ratAdd(world.RatInt(np.Reported), ratI(1))
+				}
+				bound.Add(bound, ratMul(ratMul(ix[rewardDenom], tokens), G))
+			}
+			bound.Add(bound, ratI(int64(1+ref.NAlloc[p.Key()])))
+		}
+		x.Cnt.Inc("payment.checked")
+		if advanced == 0 {
+			out = append(out, fail("payment", "paid-without-advancing-any-reward-history", "%s paid d%d %s %s but none of his positions advanced its reward history", x.Op.String(), d, paid, rewardDenom))
+			continue
+		}
+		_ = bound // (a quantitative bound per payment would need the settlement-time index; the pool-level oracles cover amounts)
+	}
+	// positions whose history advanced (whoever triggered it) start a new accrual period
+	for _, p := range prev.Pos {
+		np, ok := nm[p.Key()]
+		if !ok || fmt.Sprint(np.Raw.RewardHistory) != fmt.Sprint(p.Raw.RewardHistory) {
+			delete(ref.Idx, p.Key())
+		}
+	}
+	return out
 }
 
 // rewardStepDenoms keeps the reference current without judging claims (several reward denoms possible here).
